@@ -21,6 +21,7 @@ LEVEL_TEXT = ("Deductive: LRUCache / SimpleCache / HybridCache methods (non-shar
               "other), and every modification of the state the handles share must happen while the lock is held "
               "(recording containers). 'other': part proved, part bounded; genuine multi-process interleavings are "
               "not explored.")
+LEVEL_TEXT += (' Also proved: HybridCache.clear (no value, no access count and no computation duration remains - a later eviction scores only what is resident -, the cache stays well-formed, configuration unchanged).')
 LEVEL_NOTE = ("Proof assumes sequential execution, `with lock` = no-op for nullcontext (non-shared), floats as reals for "
               "HybridCache scores. Bounded: 3-key alphabet, max_size 1..3, depth 5 (quick) / 6-7 (thorough) exhaustive + "
               "seeded random depth 30. Genuinely concurrent multi-process histories are N/A for this family.")
